@@ -12,11 +12,15 @@ impl std::fmt::Display for Peer { fn fmt(&self, f: &mut std::fmt::Formatter<'_>)
 
 /// a request whose registry key (get_path) is exactly `path`: one Uri-Path option per '/'-separated segment, empty ones
 /// included (so "/a" has the segments "", "a")
-fn request(e: u64, path: &[u8], tok: &[u8], mid: u16) -> CoapRequest<Peer> {
+fn request(e: u64, path: &[u8], tok: &[u8], mid: u16) -> CoapRequest<Peer> { request_typed(e, path, tok, mid, 0) }
+
+/// the message type of a request (0 CON, 1 NON, 2 ACK, 3 RST) plays no part in any registry operation
+fn request_typed(e: u64, path: &[u8], tok: &[u8], mid: u16, ty: u64) -> CoapRequest<Peer> {
     let mut r: CoapRequest<Peer> = CoapRequest::new();
     r.source = Some(Peer(e));
     r.message.set_token(tok.to_vec());
     r.message.header.message_id = mid;
+    r.message.header.set_type(crate::suite01::mtype(ty as u8));
     if !path.is_empty() { for seg in path.split(|&b| b == b'/') { r.message.add_option(coap_lite::CoapOption::UriPath, seg.to_vec()); } }
     assert_eq!(r.get_path().as_bytes(), path);
     r
@@ -53,13 +57,22 @@ pub fn exec140(input: &[u64]) -> Vec<u64> {
         let kind = c.n();
         let r = catch_unwind(AssertUnwindSafe(|| {
             match kind {
-                0 => { let e = c.n(); let p = c.bytes(); let t = c.bytes(); if !paths.contains(&p) { paths.push(p.clone()); } s.register(&request(e, &p, &t, 0)); }
-                1 => { let e = c.n(); let p = c.bytes(); let t = c.bytes(); s.deregister(&request(e, &p, &t, 0)); }
+                // registrations and deregistrations are matched by endpoint, path and token: the request's message type and
+                // message id (here derived from the other fields, so that they range over all types and over the ids the
+                // notification rounds use) are immaterial
+                0 => { let e = c.n(); let p = c.bytes(); let t = c.bytes(); if !paths.contains(&p) { paths.push(p.clone()); }
+                       let h = e * 31 + p.len() as u64 * 7 + t.first().copied().unwrap_or(0) as u64 * 13;
+                       s.register(&request_typed(e, &p, &t, ((h / 4) % 9) as u16, (h + 1) % 4)); }
+                1 => { let e = c.n(); let p = c.bytes(); let t = c.bytes();
+                       let h = e * 31 + p.len() as u64 * 7 + t.first().copied().unwrap_or(0) as u64 * 13;
+                       s.deregister(&request_typed(e, &p, &t, ((h / 4) % 9) as u16, h % 4)); }
                 2 => { let p = c.bytes(); let mid = c.n() as u16; let conf = c.n() != 0; s.resource_changed(std::str::from_utf8(&p).unwrap(), mid, conf); }
                 3 => { let e = c.n(); let mid = c.n() as u16;
                        // an acknowledgement is matched by endpoint and message id; whatever path it carries is immaterial
                        let ap: Vec<u8> = match (e + mid as u64) % 4 { 0 => vec![], 1 => b"x/y".to_vec(), 2 => paths.first().cloned().unwrap_or_default(), _ => { let mut p = paths.last().cloned().unwrap_or_default(); p.extend_from_slice(b"/"); p } };
-                       s.acknowledge(&request(e, &ap, b"", mid)); }
+                       // ... and so are its token (none, a token some observer registered, a foreign one) and its type
+                       let at: Vec<u8> = match (e + mid as u64) % 3 { 0 => vec![], 1 => vec![0xAA], _ => vec![mid as u8, 0x55] };
+                       s.acknowledge(&request_typed(e, &ap, &at, mid, 2 + (e + mid as u64 / 2) % 2)); }
                 4 => { let l = c.n() as u8; s.set_unacknowledged_limit(l); }
                 5 => { let p = c.bytes(); let q = c.n() as u32; s.verif_set_sequence(std::str::from_utf8(&p).unwrap(), q); }
                 _ => panic!("bad op"),
@@ -178,6 +191,16 @@ pub fn gen140(tier: &str, r: &mut Rng, emit: &mut dyn FnMut(Vec<u64>)) {
         }
         emit(write_ops(&ops));
     } } }
+    // many observers on one resource (nothing in the registry limits their number): 40 and 300 endpoints, every one
+    // listed in order of arrival; some leave, some re-register, rounds in between
+    for ne in [33u64, 40, 65, 300] {
+        let mut ops = vec![Op::Limit(2)];
+        for e in 1..=ne { ops.push(Op::Reg(e, b"many".to_vec(), vec![e as u8])); if e % 16 == 0 { ops.push(Op::Changed(b"many".to_vec(), e as u16, e % 32 == 0)); } }
+        ops.push(Op::Reg(ne + 1, b"few".to_vec(), vec![1]));
+        for e in [1u64, 32, 33, ne] { ops.push(Op::Dereg(e, b"many".to_vec(), vec![e as u8])); ops.push(Op::Reg(e, b"many".to_vec(), vec![0])); }
+        ops.push(Op::Changed(b"many".to_vec(), 9, true)); ops.push(Op::Ack(33, 9)); ops.push(Op::Changed(b"many".to_vec(), 10, true));
+        emit(write_ops(&ops));
+    }
     // the end of the sequence counter's range (hook): a known finding
     for start in [u32::MAX - 2, u32::MAX - 1, u32::MAX] {
         let ops = vec![Op::Reg(1, b"r".to_vec(), vec![1]), Op::Seq(b"r".to_vec(), start), Op::Changed(b"r".to_vec(), 1, false), Op::Changed(b"r".to_vec(), 2, false), Op::Changed(b"r".to_vec(), 3, false)];
